@@ -23,7 +23,11 @@ CFG = dict(
               "decided witness) + regenerated call-site facts + differential run against the real Validator with real peer traffic + implementation-side "
               "oracle on the recording key manager",
     lean=["Ssv.Props.C03"],
-    engines=[dict(harness="runner", driver="m_runner", case_delim="reset", n_quick=150, n_thorough=3000, thorough_seeds=4, n_search=800, search_seeds=3)],
+    engines=[dict(harness="runner", driver="m_runner", case_delim="reset", n_quick=150, n_thorough=3000, thorough_seeds=4, n_search=800, search_seeds=3),
+             # validator-level glue (implementation-side oracle only): network-originated messages of every type, incl. SSVEventMsgType
+             # ExecuteDuty / Timeout events, through the REAL operator/validator handleRouterMessages loop to a real started Validator; notes/C03.md
+             dict(harness="vglue", driver=None, args=["-mode", "router"], case_delim="rcase", n_quick=4, n_thorough=24, thorough_seeds=2,
+                  n_search=8, search_seeds=1)],
     rule="all 8 runner flavours (7 roles + blinded proposer), committees of 4 and 7 (real threshold keys); per case a fresh REAL Validator with its 7 real "
          "runners and real QBFT controllers (production container capacity) receives, through Validator.ProcessMessage, REAL traffic captured from honest "
          "runs of all committee members' runners (pre-consensus shares, proposal/prepare/commit, decided, post-consensus shares) in broadcast order with "
